@@ -133,4 +133,47 @@ var props = map[string]PropSpec{
 		},
 		Outside: "more than 3 rounds or 3 variables; assumptions combined with AppendClause",
 	},
+	"C11": {
+		ID: "C11",
+		Quick: []HarnessRun{
+			{Name: "bf.VP_C11_bf_solve", Kind: "E", Params: map[string]int{"nodes": 2, "depth": 2, "nvars": 2, "arity": 2}, Bounds: "all formula trees with <=2 connective nodes (not, and/or of arity 0..2, implies, eq, xor), depth <=2, leaves a, b, true, false; the truth-table side is decided by the solver over symbolic assignments", Require: []string{"nil", "model"}},
+			{Name: "bf.VP_C11_bf_solve", Kind: "E", Params: map[string]int{"nodes": 2, "depth": 2, "nvars": 1, "arity": 1, "uniq": 6, "consts": 0}, Bounds: "exactly-one groups of size 0..6 (auxiliary variables from 5) under not/and/or/implies/eq/xor; groups of 5 or more only at positive polarity (known finding)", Require: []string{"nil", "model"}},
+			{Name: "bf.VP_C11_bf_solve", Kind: "E", Params: map[string]int{"spine": 3, "context": 1}, Bounds: "alternation chains op(l1, op(l2, op(l3, l4))) with op in {and, or} and signed leaves, conjoined with unit literals on any subset of the variables", Require: []string{"nil", "model"}},
+		},
+		Thorough: []HarnessRun{
+			{Name: "bf.VP_C11_bf_solve", Kind: "E", Params: map[string]int{"nodes": 3, "depth": 3, "nvars": 2, "arity": 2}, Bounds: "<=3 connective nodes, depth <=3", Require: []string{"nil", "model"}},
+			{Name: "bf.VP_C11_bf_solve", Kind: "E", Params: map[string]int{"nodes": 3, "depth": 3, "nvars": 1, "arity": 2, "uniq": 6, "consts": 0}, Bounds: "exactly-one groups up to size 6 with <=3 connectives", Require: []string{"nil", "model"}},
+			{Name: "bf.VP_C11_bf_solve", Kind: "E", Params: map[string]int{"spine": 4, "context": 1}, Bounds: "alternation chains of depth 4 with unit contexts", Require: []string{"nil", "model"}},
+		},
+		Outside: "trees with more connectives; exactly-one groups of 5 or more variables under negation (known finding C11-negated-unique-aux)",
+	},
+	"C12": {
+		ID: "C12",
+		Quick: []HarnessRun{
+			{Name: "bf.VP_C12_bf_dimacs", Kind: "E", Params: map[string]int{"nodes": 2, "depth": 2, "nvars": 2, "arity": 2}, NoSample: true, Bounds: "formula trees as C11 (<=2 connectives); export parsed by the harness; (i) CNF(x,y) => f(x) decided for symbolic x, y; (ii) for every model x of f the solver is asked whether CNF(x, y) is satisfiable", Require: []string{"dimacs", "extends"}},
+			{Name: "bf.VP_C12_bf_dimacs", Kind: "E", Params: map[string]int{"spine": 4}, NoSample: true, Bounds: "alternation chains of depth 4 (and/or, signed leaves)", Require: []string{"dimacs", "extends"}},
+			{Name: "bf.VP_C12_bf_dimacs", Kind: "E", Params: map[string]int{"nodes": 1, "depth": 2, "nvars": 1, "arity": 1, "uniq": 6, "consts": 0, "posonly": 1}, NoSample: true, Bounds: "exactly-one groups of size 0..6 at positive polarity", Require: []string{"dimacs", "extends"}},
+		},
+		Thorough: []HarnessRun{
+			{Name: "bf.VP_C12_bf_dimacs", Kind: "E", Params: map[string]int{"nodes": 3, "depth": 3, "nvars": 2, "arity": 2}, NoSample: true, Bounds: "<=3 connectives", Require: []string{"dimacs", "extends"}},
+			{Name: "bf.VP_C12_bf_dimacs", Kind: "E", Params: map[string]int{"spine": 5}, NoSample: true, Bounds: "alternation chains of depth 5", Require: []string{"dimacs", "extends"}},
+		},
+		Assumptions: []string{"native cross-validation of sampled paths is skipped for this harness (zzvp.Exists has no native counterpart); counterexamples are still replayed natively"},
+		Outside:     "larger trees; exactly-one groups under negation (the property excludes them)",
+	},
+	"C17": {
+		ID: "C17",
+		Quick: []HarnessRun{
+			{Name: "bf.VP_C17_bf_parse", Kind: "E", Params: map[string]int{"bin": 1, "nots": 1, "groups": 1, "wraps": 1}, Bounds: "syntax trees with <=1 binary operator from ; = -> | &, <=1 negation, <=1 exactly-one group {..} of 1..3 names, <=1 redundant parenthesis pair; identifiers a, b, ab; three spacings; equivalence with the documented reading decided over symbolic assignments", Require: []string{"parsed"}},
+			{Name: "bf.VP_C17_bf_parse", Kind: "E", Params: map[string]int{"bin": 2, "nots": 1, "groups": 0, "wraps": 0, "spacing": 0}, Bounds: "<=2 binary operators (all priority pairs, left and right nesting), <=1 negation", Require: []string{"parsed"}},
+			{Name: "bf.VP_C17_bf_parse_err", Kind: "E", Params: map[string]int{"bin": 1, "nots": 1, "groups": 1, "wraps": 1}, Bounds: "renderings as above with one corruption: operand deleted, binary operator duplicated, extra ')' at the end, extra '(' at the start, trailing identifier", Require: []string{"rejected"}},
+		},
+		Thorough: []HarnessRun{
+			{Name: "bf.VP_C17_bf_parse", Kind: "E", Params: map[string]int{"bin": 2, "nots": 1, "groups": 1, "wraps": 1}, Bounds: "<=2 binary operators with negations, groups, redundant parentheses, three spacings", Require: []string{"parsed"}},
+			{Name: "bf.VP_C17_bf_parse", Kind: "E", Params: map[string]int{"bin": 3, "nots": 0, "groups": 0, "wraps": 0, "spacing": 0}, Bounds: "<=3 binary operators", Require: []string{"parsed"}},
+			{Name: "bf.VP_C17_bf_parse_err", Kind: "E", Params: map[string]int{"bin": 2, "nots": 1, "groups": 1, "wraps": 1}, Bounds: "corruptions of renderings with <=2 binary operators", Require: []string{"rejected"}},
+		},
+		Assumptions: []string{"a text that ends with ';' after a complete formula is tolerated by the parser on purpose (trailing separator); such texts are excluded from the corruption generator as doubtful"},
+		Outside:     "longer texts; identifiers other than a, b, ab; comments and string literals that text/scanner recognises",
+	},
 }
